@@ -203,8 +203,10 @@ def play(ctx, rng, fam, seq, peer, box, label, batches=False):
             if out[1] != {"token": token}:
                 ctx.violate("foreign-or-stale-result-returned", ccase,
                             {"returned": out[1], "own_token": token, "calls": calls})
-            elif prev_ok and last[0] not in ("H", "Hc", "H*", "I"):
-                # (the final reply behind an interim one is this call's own answer: returning it is right, too)
+            elif prev_ok and not any(c[0] in ("H", "Hc", "H*", "I") for c in own):
+                # a value can only come from a healthy exchange of this very call (the final reply behind an interim one
+                # counts).  Judged on the SET of symbols the call consumed: a refusal is recorded by the listener's own
+                # thread and may be logged after the retry that followed it.
                 ctx.violate("value-returned-although-own-exchange-was-" + str(last[0]), ccase, {"calls": calls})
         else:
             ex = out[1]
